@@ -613,6 +613,8 @@ pub fn format_code(
 		}
 		ConvTypeV::Shorter => {
 			let value = f64::from_untyped(value.clone())?;
+			// As in C and Python, zero precision is treated as one
+			let fpprec = fpprec.max(1);
 			let exponent = if value == 0.0 {
 				0.0
 			} else {
